@@ -154,8 +154,12 @@ impl Gossip {
         // have been dropped and we didn't clean up yet. In this case we'll ignore the existing
         // entry in "senders" and continue to create a new gossip session, overwriting the "dead"
         // entries.
+        //
+        // Checking the counter and taking a new reference has to be one atomic step: a concurrent
+        // drop of the last handle in between would leave the overlay and we would hand out a
+        // handle without subscription behind it.
         if let Some((to_gossip_tx, from_gossip_tx, guard)) = self.senders.read().await.get(&topic)
-            && guard.has_subscriptions()
+            && let Some(guard) = guard.try_clone()
         {
             #[cfg(p2panda_p2panda_verif)]
             verif_c29::schedule_point("stream:check-clone");
@@ -164,7 +168,7 @@ impl Gossip {
                 max_message_size,
                 to_gossip_tx.clone(),
                 from_gossip_tx.clone(),
-                guard.clone(),
+                guard,
             ));
         }
 
@@ -436,9 +440,30 @@ impl TopicDropGuard {
         self.counter.load(std::sync::atomic::Ordering::SeqCst)
     }
 
-    /// Returns true if there's still one or more references for this topic used.
-    fn has_subscriptions(&self) -> bool {
-        self.counter() >= INITIAL_COUNTER
+    /// Clone guard and increment the reference counter, but only if there's still one or more
+    /// references for this topic used. Check and increment happen in a single atomic step.
+    fn try_clone(&self) -> Option<Self> {
+        self.counter
+            .fetch_update(
+                std::sync::atomic::Ordering::SeqCst,
+                std::sync::atomic::Ordering::SeqCst,
+                |counter| (counter >= INITIAL_COUNTER).then_some(counter + 1),
+            )
+            .ok()?;
+
+        trace!(
+            topic = self.topic.fmt_short(),
+            counter = self.counter(),
+            actor_id = %self.actor_ref.get_id(),
+            "clone topic drop guard +1"
+        );
+
+        Some(Self {
+            topic: self.topic,
+            counter: self.counter.clone(),
+            actor_ref: self.actor_ref.clone(),
+            ignore_drop: false,
+        })
     }
 
     /// Clone guard, but don't increment reference counter.
